@@ -150,11 +150,12 @@ Ltac the_member X Ff :=
 (* frame: a member that does not match field f leaves its projection alone *)
 Ltac frame_tac stp :=
   let st := fresh "st" in let k := fresh "k" in let v := fresh "v" in let st' := fresh "st'" in
-  intros st k v st' _ Hn; unfold stp;
+  let Hnm := fresh "Hnm" in intros st k v st' _ Hnm; unfold stp;
   repeat match goal with |- context [if is_field k ?f then _ else _] => destruct (is_field k f) eqn:? end;
   try congruence;
-  try (match goal with |- bind ?r _ = _ -> _ => destruct r end; smp; intros E; inversion E; reflexivity);
-  try (intros E; inversion E; reflexivity).
+  try (match goal with |- bind ?r _ = _ -> _ => destruct r end; smp;
+       let Q := fresh in intros Q; inversion Q; reflexivity);
+  try (let Q := fresh in intros Q; inversion Q; reflexivity).
 
 (* ---------- kdfparams (scrypt) ---------- *)
 
@@ -210,3 +211,487 @@ Proof.
     - apply field_some in Fs as [I _]. exact (existsb_hit _ _ _ I). }
   destruct st'; cbn in *; subst; reflexivity.
 Qed.
+
+Ltac kill_decs :=
+  repeat match goal with
+  | |- context [dec_string ?a ?b] => destruct (dec_string a b)
+  | |- context [dec_hex ?a ?b] => destruct (dec_hex a b)
+  | |- context [dec_int ?a ?b] => destruct (dec_int a b)
+  | |- context [dec_uuid ?P ?a ?b] => destruct (dec_uuid P a b)
+  | |- context [dec_object ?s ?a ?b] => destruct (dec_object s a b)
+  end.
+
+Ltac frame_gen unf :=
+  let st := fresh "st" in let k := fresh "k" in let v := fresh "v" in let st' := fresh "st'" in
+  let Hnm := fresh "Hnm" in
+  intros st k v st' _ Hnm; unf;
+  repeat match goal with |- context [if is_field k ?f then _ else _] => destruct (is_field k f) eqn:? end;
+  try congruence; cbv beta iota; kill_decs; smp; cbv beta iota; smp;
+  try (let Q := fresh in intros Q; inversion Q; reflexivity).
+
+(* ---------- kdfparams (pbkdf2) ---------- *)
+Lemma pbkdf2_params_decoded kp dkl c prf salt :
+  exact_names pbkdf2_fields kp = true ->
+  int_field "dklen" kp = Some dkl -> int_field "c" kp = Some c -> str_field "prf" kp = Some prf ->
+  hex_field "salt" kp = Some salt ->
+  forall st0, fold_members step_pbkdf2_params kp st0 =
+              Ok {| pp_dklen := dkl; pp_c := c; pp_prf := prf; pp_salt := salt |}.
+Proof.
+  intros X Fd Fc Fp Fs st0.
+  apply int_field_some in Fd as [ld [Fd Pd]]. apply int_field_some in Fc as [lc [Fc Pc]].
+  apply str_field_some in Fp. apply hex_field_some in Fs as [ss [Fs Ps]].
+  assert (T : forall st k v, In (k, v) kp -> exists st', step_pbkdf2_params st k v = Ok st').
+  { intros st k v I. unfold step_pbkdf2_params.
+    destruct (is_field k "dklen") eqn:E1; [the_member X Fd; cbn [dec_int]; rewrite Pd; eexists; reflexivity|].
+    destruct (is_field k "c") eqn:E2; [the_member X Fc; cbn [dec_int]; rewrite Pc; eexists; reflexivity|].
+    destruct (is_field k "prf") eqn:E3; [the_member X Fp; cbn [dec_string]; eexists; reflexivity|].
+    destruct (is_field k "salt") eqn:E5; [the_member X Fs; rewrite (dec_hex_ok _ _ _ Ps); eexists; reflexivity|].
+    eexists; reflexivity. }
+  destruct (fold_members_total _ kp T st0) as [st' E]. rewrite E. f_equal.
+  assert (Hd : pp_dklen st' = dkl).
+  { refine (proj1 (fold_members_set step_pbkdf2_params pp_dklen (fun k => is_field k "dklen") dkl kp _ _ st0 st' E) _).
+    - intros st k v st1 I Hk. the_member X Fd. unfold step_pbkdf2_params. reduce_is_field. cbn [dec_int]. rewrite Pd. smp.
+      intros H; inversion H; reflexivity.
+    - frame_gen ltac:(unfold step_pbkdf2_params).
+    - apply field_some in Fd as [I _]. exact (existsb_hit _ _ _ I). }
+  assert (Hc : pp_c st' = c).
+  { refine (proj1 (fold_members_set step_pbkdf2_params pp_c (fun k => is_field k "c") c kp _ _ st0 st' E) _).
+    - intros st k v st1 I Hk. the_member X Fc. unfold step_pbkdf2_params. reduce_is_field. cbn [dec_int]. rewrite Pc. smp.
+      intros H; inversion H; reflexivity.
+    - frame_gen ltac:(unfold step_pbkdf2_params).
+    - apply field_some in Fc as [I _]. exact (existsb_hit _ _ _ I). }
+  assert (Hp : pp_prf st' = prf).
+  { refine (proj1 (fold_members_set step_pbkdf2_params pp_prf (fun k => is_field k "prf") prf kp _ _ st0 st' E) _).
+    - intros st k v st1 I Hk. the_member X Fp. unfold step_pbkdf2_params. reduce_is_field. cbn [dec_string]. smp.
+      intros H; inversion H; reflexivity.
+    - frame_gen ltac:(unfold step_pbkdf2_params).
+    - apply field_some in Fp as [I _]. exact (existsb_hit _ _ _ I). }
+  assert (Hs : pp_salt st' = salt).
+  { refine (proj1 (fold_members_set step_pbkdf2_params pp_salt (fun k => is_field k "salt") salt kp _ _ st0 st' E) _).
+    - intros st k v st1 I Hk. the_member X Fs. unfold step_pbkdf2_params. reduce_is_field. rewrite (dec_hex_ok _ _ _ Ps). smp.
+      intros H; inversion H; reflexivity.
+    - frame_gen ltac:(unfold step_pbkdf2_params).
+    - apply field_some in Fs as [I _]. exact (existsb_hit _ _ _ I). }
+  destruct st'; cbn in *; subst; reflexivity.
+Qed.
+
+(* ---------- cipherparams ---------- *)
+Lemma cipherparams_decoded cp iv :
+  exact_names ["iv"] cp = true -> hex_field "iv" cp = Some iv ->
+  forall st0, fold_members step_cipherparams cp st0 = Ok iv.
+Proof.
+  intros X Fi st0. apply hex_field_some in Fi as [s [Fi Pi]].
+  assert (T : forall st k v, In (k, v) cp -> exists st', step_cipherparams st k v = Ok st').
+  { intros st k v I. unfold step_cipherparams.
+    destruct (is_field k "iv") eqn:E1; [the_member X Fi; rewrite (dec_hex_ok _ _ _ Pi); eexists; reflexivity|].
+    eexists; reflexivity. }
+  destruct (fold_members_total _ cp T st0) as [st' E]. rewrite E. f_equal.
+  refine (proj1 (fold_members_set step_cipherparams (fun x => x) (fun k => is_field k "iv") iv cp _ _ st0 st' E) _).
+  - intros st k v st1 I Hk. the_member X Fi. unfold step_cipherparams. reduce_is_field. rewrite (dec_hex_ok _ _ _ Pi).
+    intros H; inversion H; reflexivity.
+  - intros st k v st1 _ Hk. unfold step_cipherparams. rewrite Hk. intros H; inversion H; reflexivity.
+  - apply field_some in Fi as [I _]. exact (existsb_hit _ _ _ I).
+Qed.
+
+(* ---------- crypto ---------- *)
+Section Crypto.
+Variables (c cp : list (bytes * json)) (cipher ct iv kdf mac : bytes).
+Hypothesis X : exact_names crypto_fields c = true.
+Hypothesis Fcipher : field "cipher" c = Some (JStr cipher).
+Variable sct : bytes.
+Hypothesis Fct : field "ciphertext" c = Some (JStr sct).
+Hypothesis Pct : hex_decode sct = Some ct.
+Hypothesis Fcp : field "cipherparams" c = Some (JObj cp).
+Hypothesis Dcp : forall st0, fold_members step_cipherparams cp st0 = Ok iv.
+Hypothesis Fkdf : field "kdf" c = Some (JStr kdf).
+Variable smac : bytes.
+Hypothesis Fmac : field "mac" c = Some (JStr smac).
+Hypothesis Pmac : hex_decode smac = Some mac.
+
+Definition cc_target : crypto_common :=
+  {| cc_cipher := cipher; cc_ciphertext := ct; cc_iv := iv; cc_kdf := kdf; cc_mac := mac |}.
+
+Ltac common_total :=
+  match goal with
+  | I : In (?k, ?v) c |- _ =>
+    destruct (is_field k "cipher") eqn:E1; [the_member X Fcipher; cbn [dec_string]; smp; eexists; reflexivity|];
+    destruct (is_field k "ciphertext") eqn:E2; [the_member X Fct; rewrite (dec_hex_ok _ _ _ Pct); smp; eexists; reflexivity|];
+    destruct (is_field k "cipherparams") eqn:E3; [the_member X Fcp; cbn [dec_object]; rewrite Dcp; smp; eexists; reflexivity|];
+    destruct (is_field k "kdf") eqn:E4; [the_member X Fkdf; cbn [dec_string]; smp; eexists; reflexivity|];
+    destruct (is_field k "mac") eqn:E5; [the_member X Fmac; rewrite (dec_hex_ok _ _ _ Pmac); smp; eexists; reflexivity|]
+  end.
+
+(* walletFileCommon.Crypto *)
+Lemma crypto_only_decoded : forall st0, fold_members step_crypto_only c st0 = Ok cc_target.
+Proof.
+  intros st0.
+  assert (T : forall st k v, In (k, v) c -> exists st', step_crypto_only st k v = Ok st').
+  { intros st k v I. unfold step_crypto_only, step_crypto_common. common_total. eexists; reflexivity. }
+  destruct (fold_members_total _ c T st0) as [st' E]. rewrite E. f_equal.
+  assert (H1 : cc_cipher st' = cipher).
+  { refine (proj1 (fold_members_set step_crypto_only cc_cipher (fun k => is_field k "cipher") cipher c _ _ st0 st' E) _).
+    - intros st k v st1 I Hk. the_member X Fcipher. unfold step_crypto_only, step_crypto_common. reduce_is_field. cbn [dec_string]. smp.
+      intros H; inversion H; reflexivity.
+    - frame_gen ltac:(unfold step_crypto_only, step_crypto_common).
+    - apply field_some in Fcipher as [I _]. exact (existsb_hit _ _ _ I). }
+  assert (H2 : cc_ciphertext st' = ct).
+  { refine (proj1 (fold_members_set step_crypto_only cc_ciphertext (fun k => is_field k "ciphertext") ct c _ _ st0 st' E) _).
+    - intros st k v st1 I Hk. the_member X Fct. unfold step_crypto_only, step_crypto_common. reduce_is_field. rewrite (dec_hex_ok _ _ _ Pct). smp.
+      intros H; inversion H; reflexivity.
+    - frame_gen ltac:(unfold step_crypto_only, step_crypto_common).
+    - apply field_some in Fct as [I _]. exact (existsb_hit _ _ _ I). }
+  assert (H3 : cc_iv st' = iv).
+  { refine (proj1 (fold_members_set step_crypto_only cc_iv (fun k => is_field k "cipherparams") iv c _ _ st0 st' E) _).
+    - intros st k v st1 I Hk. the_member X Fcp. unfold step_crypto_only, step_crypto_common. reduce_is_field. cbn [dec_object]. rewrite Dcp. smp.
+      intros H; inversion H; reflexivity.
+    - frame_gen ltac:(unfold step_crypto_only, step_crypto_common).
+    - apply field_some in Fcp as [I _]. exact (existsb_hit _ _ _ I). }
+  assert (H4 : cc_kdf st' = kdf).
+  { refine (proj1 (fold_members_set step_crypto_only cc_kdf (fun k => is_field k "kdf") kdf c _ _ st0 st' E) _).
+    - intros st k v st1 I Hk. the_member X Fkdf. unfold step_crypto_only, step_crypto_common. reduce_is_field. cbn [dec_string]. smp.
+      intros H; inversion H; reflexivity.
+    - frame_gen ltac:(unfold step_crypto_only, step_crypto_common).
+    - apply field_some in Fkdf as [I _]. exact (existsb_hit _ _ _ I). }
+  assert (H5 : cc_mac st' = mac).
+  { refine (proj1 (fold_members_set step_crypto_only cc_mac (fun k => is_field k "mac") mac c _ _ st0 st' E) _).
+    - intros st k v st1 I Hk. the_member X Fmac. unfold step_crypto_only, step_crypto_common. reduce_is_field. rewrite (dec_hex_ok _ _ _ Pmac). smp.
+      intros H; inversion H; reflexivity.
+    - frame_gen ltac:(unfold step_crypto_only, step_crypto_common).
+    - apply field_some in Fmac as [I _]. exact (existsb_hit _ _ _ I). }
+  unfold cc_target. destruct st'; cbn in *; subst; reflexivity.
+Qed.
+
+(* cryptoScrypt / cryptoPbkdf2 *)
+Variable K : Type.
+Variable step_params : K -> bytes -> json -> res K.
+Variable kp : list (bytes * json).
+Variable target : K.
+Hypothesis Fkp : field "kdfparams" c = Some (JObj kp).
+Hypothesis Dkp : forall st0, fold_members step_params kp st0 = Ok target.
+
+Lemma crypto_with_decoded : forall st0, fold_members (step_crypto_with step_params) c st0 = Ok (cc_target, target).
+Proof.
+  intros st0.
+  assert (T : forall st k v, In (k, v) c -> exists st', step_crypto_with step_params st k v = Ok st').
+  { intros st k v I. unfold step_crypto_with, step_crypto_common. common_total.
+    destruct (is_field k "kdfparams") eqn:E6; [the_member X Fkp; cbn [dec_object]; rewrite Dkp; smp; eexists; reflexivity|].
+    eexists; reflexivity. }
+  destruct (fold_members_total _ c T st0) as [st' E]. rewrite E. f_equal.
+  assert (H1 : cc_cipher (fst st') = cipher).
+  { refine (proj1 (fold_members_set (step_crypto_with step_params) (fun s => cc_cipher (fst s)) (fun k => is_field k "cipher") cipher c _ _ st0 st' E) _).
+    - intros st k v st1 I Hk. the_member X Fcipher. unfold step_crypto_with, step_crypto_common. reduce_is_field. cbn [dec_string]. smp.
+      intros H; inversion H; reflexivity.
+    - frame_gen ltac:(unfold step_crypto_with, step_crypto_common).
+    - apply field_some in Fcipher as [I _]. exact (existsb_hit _ _ _ I). }
+  assert (H2 : cc_ciphertext (fst st') = ct).
+  { refine (proj1 (fold_members_set (step_crypto_with step_params) (fun s => cc_ciphertext (fst s)) (fun k => is_field k "ciphertext") ct c _ _ st0 st' E) _).
+    - intros st k v st1 I Hk. the_member X Fct. unfold step_crypto_with, step_crypto_common. reduce_is_field. rewrite (dec_hex_ok _ _ _ Pct). smp.
+      intros H; inversion H; reflexivity.
+    - frame_gen ltac:(unfold step_crypto_with, step_crypto_common).
+    - apply field_some in Fct as [I _]. exact (existsb_hit _ _ _ I). }
+  assert (H3 : cc_iv (fst st') = iv).
+  { refine (proj1 (fold_members_set (step_crypto_with step_params) (fun s => cc_iv (fst s)) (fun k => is_field k "cipherparams") iv c _ _ st0 st' E) _).
+    - intros st k v st1 I Hk. the_member X Fcp. unfold step_crypto_with, step_crypto_common. reduce_is_field. cbn [dec_object]. rewrite Dcp. smp.
+      intros H; inversion H; reflexivity.
+    - frame_gen ltac:(unfold step_crypto_with, step_crypto_common).
+    - apply field_some in Fcp as [I _]. exact (existsb_hit _ _ _ I). }
+  assert (H4 : cc_kdf (fst st') = kdf).
+  { refine (proj1 (fold_members_set (step_crypto_with step_params) (fun s => cc_kdf (fst s)) (fun k => is_field k "kdf") kdf c _ _ st0 st' E) _).
+    - intros st k v st1 I Hk. the_member X Fkdf. unfold step_crypto_with, step_crypto_common. reduce_is_field. cbn [dec_string]. smp.
+      intros H; inversion H; reflexivity.
+    - frame_gen ltac:(unfold step_crypto_with, step_crypto_common).
+    - apply field_some in Fkdf as [I _]. exact (existsb_hit _ _ _ I). }
+  assert (H5 : cc_mac (fst st') = mac).
+  { refine (proj1 (fold_members_set (step_crypto_with step_params) (fun s => cc_mac (fst s)) (fun k => is_field k "mac") mac c _ _ st0 st' E) _).
+    - intros st k v st1 I Hk. the_member X Fmac. unfold step_crypto_with, step_crypto_common. reduce_is_field. rewrite (dec_hex_ok _ _ _ Pmac). smp.
+      intros H; inversion H; reflexivity.
+    - frame_gen ltac:(unfold step_crypto_with, step_crypto_common).
+    - apply field_some in Fmac as [I _]. exact (existsb_hit _ _ _ I). }
+  assert (H6 : snd st' = target).
+  { refine (proj1 (fold_members_set (step_crypto_with step_params) snd (fun k => is_field k "kdfparams") target c _ _ st0 st' E) _).
+    - intros st k v st1 I Hk. the_member X Fkp. unfold step_crypto_with, step_crypto_common. reduce_is_field. cbn [dec_object]. rewrite Dkp. smp.
+      intros H; inversion H; reflexivity.
+    - frame_gen ltac:(unfold step_crypto_with, step_crypto_common).
+    - apply field_some in Fkp as [I _]. exact (existsb_hit _ _ _ I). }
+  unfold cc_target. destruct st' as [[] ?]; cbn in *; subst; reflexivity.
+Qed.
+End Crypto.
+
+(* ---------- the document ---------- *)
+Section Top.
+Variables (P : prims) (top c : list (bytes * json)) (id u lv : bytes) (ver : Z).
+Hypothesis X : exact_names top_fields top = true.
+Hypothesis Fid : field "id" top = Some (JStr id).
+Hypothesis Nid : id <> [].
+Hypothesis Pid : uuid_parse P id = Some u.
+Hypothesis Fver : field "version" top = Some (JNum lv).
+Hypothesis Pver : parse_int64 lv = Some ver.
+Hypothesis Fc : field "crypto" top = Some (JObj c).
+Variable C : Type.
+Variable step_crypto : C -> bytes -> json -> res C.
+Variable target : C.
+Hypothesis Dc : forall st0, fold_members step_crypto c st0 = Ok target.
+
+Lemma dec_uuid_id cur : dec_uuid P cur (JStr id) = Ok (Some u).
+Proof. unfold dec_uuid. destruct id; [congruence|]. rewrite Pid. reflexivity. Qed.
+
+Lemma wallet_decoded zero :
+  unmarshal_wallet P step_crypto zero (JObj top) = Ok ({| cf_id := Some u; cf_version := ver |}, target).
+Proof.
+  unfold unmarshal_wallet. cbn [dec_object]. set (st0 := (zero_core, zero)).
+  assert (T : forall st k v, In (k, v) top -> exists st', step_wallet P step_crypto st k v = Ok st').
+  { intros st k v I. unfold step_wallet, step_core.
+    destruct (is_field k "id") eqn:E1; [the_member X Fid; rewrite dec_uuid_id; smp; eexists; reflexivity|].
+    destruct (is_field k "version") eqn:E2; [the_member X Fver; cbn [dec_int]; rewrite Pver; smp; eexists; reflexivity|].
+    destruct (is_field k "crypto") eqn:E3; [the_member X Fc; cbn [dec_object]; rewrite Dc; smp; eexists; reflexivity|].
+    eexists; reflexivity. }
+  destruct (fold_members_total _ top T st0) as [st' E]. rewrite E. f_equal.
+  assert (H1 : cf_id (fst st') = Some u).
+  { refine (proj1 (fold_members_set (step_wallet P step_crypto) (fun s => cf_id (fst s)) (fun k => is_field k "id") (Some u) top _ _ st0 st' E) _).
+    - intros st k v st1 I Hk. the_member X Fid. unfold step_wallet, step_core. reduce_is_field. rewrite dec_uuid_id. smp.
+      intros H; inversion H; reflexivity.
+    - frame_gen ltac:(unfold step_wallet, step_core).
+    - apply field_some in Fid as [I _]. exact (existsb_hit _ _ _ I). }
+  assert (H2 : cf_version (fst st') = ver).
+  { refine (proj1 (fold_members_set (step_wallet P step_crypto) (fun s => cf_version (fst s)) (fun k => is_field k "version") ver top _ _ st0 st' E) _).
+    - intros st k v st1 I Hk. the_member X Fver. unfold step_wallet, step_core. reduce_is_field. cbn [dec_int]. rewrite Pver. smp.
+      intros H; inversion H; reflexivity.
+    - frame_gen ltac:(unfold step_wallet, step_core).
+    - apply field_some in Fver as [I _]. exact (existsb_hit _ _ _ I). }
+  assert (H3 : snd st' = target).
+  { refine (proj1 (fold_members_set (step_wallet P step_crypto) snd (fun k => is_field k "crypto") target top _ _ st0 st' E) _).
+    - intros st k v st1 I Hk. the_member X Fc. unfold step_wallet, step_core. reduce_is_field. cbn [dec_object]. rewrite Dc. smp.
+      intros H; inversion H; reflexivity.
+    - frame_gen ltac:(unfold step_wallet, step_core).
+    - apply field_some in Fc as [I _]. exact (existsb_hit _ _ _ I). }
+  destruct st' as [[] ?]; cbn in *; subst; reflexivity.
+Qed.
+End Top.
+
+(* ---------- json.Unmarshal into map[string]interface{} ---------- *)
+(* every number literal of the document converts to a float64 *)
+Fixpoint nums_ok (P : prims) (j : json) : bool :=
+  match j with
+  | JNum l => match json_num P l with Some _ => true | None => false end
+  | JArr l => forallb (nums_ok P) l
+  | JObj ms => forallb (fun m => nums_ok P (snd m)) ms
+  | _ => true
+  end.
+
+Lemma dec_iface_total P j : nums_ok P j = true ->
+  exists j', dec_iface P j = Ok j' /\ (forall ms, j = JObj ms -> exists m, j' = JObj m).
+Proof.
+  induction j as [| b | l | s | l IH | ms IH] using json_ind'; intros N.
+  - eexists; split; [reflexivity|]; discriminate.
+  - eexists; split; [reflexivity|]; discriminate.
+  - cbn [nums_ok] in N. cbn [dec_iface]. destruct (json_num P l); [|discriminate].
+    eexists; split; [reflexivity|]; discriminate.
+  - eexists; split; [reflexivity|]; discriminate.
+  - cbn [nums_ok] in N. cbn [dec_iface].
+    assert (G : exists l', (fix go (l : list json) : res (list json) :=
+                  match l with
+                  | [] => Ok []
+                  | x :: t => do x' <- dec_iface P x; do t' <- go t; Ok (x' :: t')
+                  end) l = Ok l').
+    { induction IH as [|x t Hx Ht IHt]; [eexists; reflexivity|].
+      cbn [forallb] in N. apply andb_prop in N as [N1 N2].
+      destruct (Hx N1) as [x' [Ex _]]. destruct (IHt N2) as [t' Et].
+      rewrite Ex. smp. rewrite Et. smp. eexists; reflexivity. }
+    destruct G as [l' G]. rewrite G. smp. eexists; split; [reflexivity|]; discriminate.
+  - cbn [nums_ok] in N. cbn [dec_iface].
+    assert (G : forall acc, exists m, (fix go (ms : list (bytes * json)) (acc : jmap) : res jmap :=
+                 match ms with
+                 | [] => Ok acc
+                 | (k, x) :: t => do x' <- dec_iface P x; go t (mset k x' acc)
+                 end) ms acc = Ok m).
+    { induction IH as [|[k x] t Hx Ht IHt]; intros acc; [eexists; reflexivity|].
+      cbn [forallb snd] in N. apply andb_prop in N as [N1 N2]. cbn [snd] in Hx.
+      destruct (Hx N1) as [x' [Ex _]]. rewrite Ex. smp. apply IHt. exact N2. }
+    destruct (G []) as [m G']. rewrite G'. smp. eexists; split; [reflexivity|].
+    intros ms' _. eexists; reflexivity.
+Qed.
+
+Lemma unmarshal_metadata_ok P top : nums_ok P (JObj top) = true ->
+  exists m, unmarshal_metadata P (JObj top) = Ok (Some m).
+Proof.
+  intros N. destruct (dec_iface_total P (JObj top) N) as [j' [E O]].
+  destruct (O top eq_refl) as [m ->]. exists m. unfold unmarshal_metadata. rewrite E. reflexivity.
+Qed.
+
+(* ---------- assembling ---------- *)
+(* no member name of the document, its crypto object, cipherparams or kdfparams differs from one of
+   the field names the Go structs declare only by letter case (or by the Unicode characters that fold
+   to ASCII letters) *)
+Definition unambiguous (doc : json) : bool :=
+  match doc with
+  | JObj top =>
+      exact_names top_fields top &&
+      match obj_field "crypto" top with
+      | Some c =>
+          exact_names crypto_fields c &&
+          match obj_field "cipherparams" c with Some cp => exact_names ["iv"] cp | None => true end &&
+          match obj_field "kdfparams" c with
+          | Some kp => exact_names scrypt_fields kp && exact_names pbkdf2_fields kp
+          | None => true
+          end
+      | None => true
+      end
+  | _ => true
+  end.
+
+Lemma uuid_text_nonempty s : uuid_text_ok s = true -> s <> [].
+Proof. intros H ->. discriminate. Qed.
+
+Lemma scrypt_pre_split N r p d : scrypt_pre N r p d = true ->
+  scrypt_dom r p d = true /\ scrypt_params_ok N r p = true /\ (0 < r)%Z /\ (0 < p)%Z.
+Proof.
+  unfold scrypt_pre. intros H. apply andb_prop in H as [D K]. split; [exact D|]. split; [exact K|].
+  unfold scrypt_dom in D. apply andb_prop in D as [D _]. apply andb_prop in D as [A B].
+  apply Z.ltb_lt in A, B. auto.
+Qed.
+
+Section ReadStandard.
+Variable P : prims.
+Hypothesis L : crypto_laws P.
+Hypothesis LU : uuid_accepts_text P.
+
+Lemma decryptCommon_spec (c : crypto_common) dk :
+  length dk = 32%nat -> length (cc_iv c) = 16%nat ->
+  bytes_eqb (hash P (skipn 16 dk ++ cc_ciphertext c)) (cc_mac c) = true ->
+  decryptCommon P c dk = Ok (aes_ctr P (firstn 16 dk) (cc_iv c) (cc_ciphertext c)).
+Proof.
+  intros Ld Li M. unfold decryptCommon. rewrite Ld. cbn [Nat.eqb negb].
+  rewrite ProofsMac.slice_hi_half by exact Ld. smp. unfold generateMac. rewrite M. cbn [negb].
+  rewrite ProofsMac.slice_lo_half by exact Ld. smp.
+  unfold aes128CtrDecrypt, aes_key_ok. rewrite firstn_length, Ld. cbn [Nat.min Nat.eqb orb negb].
+  rewrite Li. cbn [Nat.eqb negb]. unfold call_ctr, ctr_iv_pre. rewrite Li. reflexivity.
+Qed.
+
+Theorem read_is_standard_core (check_cipher : bool) doc pw key md :
+  v3_decrypt_gen check_cipher P doc pw = Ok key ->
+  unambiguous doc = true ->
+  (forall id, v3_id doc = Some id -> uuid_parse P id <> None) ->
+  unmarshal_metadata P doc = Ok (Some md) ->
+  exists w, read_wallet_tree P doc pw = Ok w /\ PrivateKey w = key /\ Metadata w = md /\
+            exists id, v3_id doc = Some id /\ GetID w = uuid_parse P id /\ GetID w <> None.
+Proof.
+  unfold v3_decrypt_gen. destruct doc as [| | | | |top]; try discriminate.
+  destruct (field "version" top) as [[| | lv | | |]|] eqn:Fver; try discriminate.
+  destruct (str_field "id" top) as [id|] eqn:Fid; try discriminate.
+  destruct (obj_field "crypto" top) as [c|] eqn:Fc; try discriminate.
+  destruct (bytes_eqb_spec lv (ascii_bytes "3")) as [->|]; cbn [negb]; [|discriminate].
+  destruct (uuid_text_ok id) eqn:Tid; cbn [negb]; [|discriminate].
+  destruct (str_field "cipher" c) as [cipher|] eqn:Fcipher; try discriminate.
+  destruct (hex_field "ciphertext" c) as [ct|] eqn:Fct; try discriminate.
+  destruct (obj_field "cipherparams" c) as [cp|] eqn:Fcp; try discriminate.
+  destruct (str_field "kdf" c) as [kdf|] eqn:Fkdf; try discriminate.
+  destruct (obj_field "kdfparams" c) as [kp|] eqn:Fkp; try discriminate.
+  destruct (hex_field "mac" c) as [mac|] eqn:Fmac; try discriminate.
+  destruct (check_cipher && negb (bytes_eqb cipher (ascii_bytes "aes-128-ctr"))); [discriminate|].
+  destruct (hex_field "iv" cp) as [iv|] eqn:Fiv; try discriminate.
+  destruct (length iv =? 16)%nat eqn:Liv; cbn [negb]; [|discriminate]. apply Nat.eqb_eq in Liv.
+  destruct (derive_key P kdf kp pw) as [dk|] eqn:Dk; try discriminate.
+  destruct (bytes_eqb (hash P (skipn 16 dk ++ ct)) mac) eqn:M; [|discriminate].
+  intros H; injection H as <-.
+  (* unambiguity, per object *)
+  unfold unambiguous. rewrite Fc, Fcp, Fkp. intros U.
+  apply andb_prop in U as [Utop U]. apply andb_prop in U as [U Ukp]. apply andb_prop in U as [Uc Ucp].
+  apply andb_prop in Ukp as [Uks Ukp].
+  intros LUid Emd.
+  (* the pieces *)
+  assert (Vid : v3_id (JObj top) = Some id) by (unfold v3_id; rewrite Fid; reflexivity).
+  destruct (uuid_parse P id) as [u|] eqn:Pid; [|exfalso; exact (LUid id Vid Pid)].
+  pose proof (uuid_text_nonempty _ Tid) as Nid.
+  apply str_field_some in Fid. apply obj_field_some in Fc.
+  apply str_field_some in Fcipher. apply str_field_some in Fkdf.
+  apply hex_field_some in Fct as [sct [Fct Pct]]. apply hex_field_some in Fmac as [smac [Fmac Pmac]].
+  apply obj_field_some in Fcp. apply obj_field_some in Fkp.
+  pose proof (cipherparams_decoded cp iv Ucp Fiv) as Dcp.
+  assert (Pver : parse_int64 (ascii_bytes "3") = Some 3%Z) by reflexivity.
+  pose proof (crypto_only_decoded c cp cipher ct iv kdf mac Uc Fcipher sct Fct Pct Fcp Dcp Fkdf smac Fmac Pmac) as Dco.
+  unfold read_wallet_tree.
+  rewrite (wallet_decoded P top c id u (ascii_bytes "3") 3 Utop Fid Nid Pid Fver Pver Fc _ step_crypto_only _ Dco zero_cc).
+  smp. rewrite Emd. smp. cbn [cf_id cf_version]. change (3 =? version3)%Z with true. cbn [negb].
+  unfold cc_target at 1 2. cbn [cc_kdf].
+  unfold derive_key in Dk.
+  change (ascii_bytes "scrypt") with kdfTypeScrypt in Dk. change (ascii_bytes "pbkdf2") with kdfTypePbkdf2 in Dk.
+  destruct (bytes_eqb kdf kdfTypeScrypt) eqn:Ks.
+  - (* scrypt *)
+    destruct (int_field "dklen" kp) as [dkl|] eqn:Fd; try discriminate.
+    destruct (int_field "n" kp) as [n|] eqn:Fn; try discriminate.
+    destruct (int_field "r" kp) as [r|] eqn:Fr; try discriminate.
+    destruct (int_field "p" kp) as [p|] eqn:Fp; try discriminate.
+    destruct (hex_field "salt" kp) as [salt|] eqn:Fs; try discriminate.
+    destruct (dkl =? 32)%Z eqn:D32; cbn [andb] in Dk; [|discriminate]. apply Z.eqb_eq in D32. subst dkl.
+    destruct (scrypt_pre n r p 32) eqn:Pre; [|discriminate]. injection Dk as <-.
+    pose proof (scrypt_params_decoded kp 32 n r p salt Uks Fd Fn Fr Fp Fs) as Dsp.
+    pose proof (crypto_with_decoded c cp cipher ct iv kdf mac Uc Fcipher sct Fct Pct Fcp Dcp Fkdf smac Fmac Pmac
+                  _ step_scrypt_params kp _ Fkp Dsp) as Dcw.
+    unfold readScryptWalletFile.
+    rewrite (wallet_decoded P top c id u (ascii_bytes "3") 3 Utop Fid Nid Pid Fver Pver Fc _ _ _ Dcw (zero_cc, zero_sp)).
+    smp. unfold scrypt_decrypt. cbn [sp_dklen sp_r sp_p sp_n sp_salt]. change (32 =? derivedKeyLen)%Z with true. cbn [negb].
+    destruct (scrypt_pre_split _ _ _ _ Pre) as [Dom [Pok [Rpos Ppos]]].
+    replace (r <=? 0)%Z with false by (symmetry; apply Z.leb_gt; exact Rpos).
+    replace (p <=? 0)%Z with false by (symmetry; apply Z.leb_gt; exact Ppos). cbn [orb].
+    unfold call_scrypt. rewrite Dom, Pok. cbn [negb]. smp. cbn [gs_data].
+    rewrite (decryptCommon_spec (cc_target cipher ct iv kdf mac) (scrypt P pw salt n r p 32)).
+    + smp. eexists. split; [reflexivity|]. split; [reflexivity|]. split; [reflexivity|].
+      exists id. unfold v3_id, str_field. rewrite Fid. unfold GetID. cbn [w_core cf_id]. rewrite Pid.
+      repeat split; congruence.
+    + apply (cl_scrypt_len P L). exact Pre.
+    + exact Liv.
+    + exact M.
+  - (* pbkdf2 *)
+    destruct (bytes_eqb kdf kdfTypePbkdf2) eqn:Kp; [|discriminate].
+    destruct (int_field "dklen" kp) as [dkl|] eqn:Fd; try discriminate.
+    destruct (int_field "c" kp) as [cnt|] eqn:Fcnt; try discriminate.
+    destruct (str_field "prf" kp) as [prf|] eqn:Fprf; try discriminate.
+    destruct (hex_field "salt" kp) as [salt|] eqn:Fs; try discriminate.
+    destruct (dkl =? 32)%Z eqn:D32; cbn [andb] in Dk; [|discriminate]. apply Z.eqb_eq in D32. subst dkl.
+    destruct (pbkdf2_pre cnt 32) eqn:Pre; cbn [andb] in Dk; [|discriminate].
+    destruct (bytes_eqb_spec prf (ascii_bytes "hmac-sha256")) as [->|]; [|discriminate]. injection Dk as <-.
+    pose proof (pbkdf2_params_decoded kp 32 cnt _ salt Ukp Fd Fcnt Fprf Fs) as Dpp.
+    pose proof (crypto_with_decoded c cp cipher ct iv kdf mac Uc Fcipher sct Fct Pct Fcp Dcp Fkdf smac Fmac Pmac
+                  _ step_pbkdf2_params kp _ Fkp Dpp) as Dcw.
+    unfold readPbkdf2WalletFile.
+    rewrite (wallet_decoded P top c id u (ascii_bytes "3") 3 Utop Fid Nid Pid Fver Pver Fc _ _ _ Dcw (zero_cc, zero_pp)).
+    smp. unfold pbkdf2_decrypt. cbn [pp_dklen pp_c pp_prf pp_salt].
+    change (bytes_eqb (ascii_bytes "hmac-sha256") prfHmacSHA256) with true. cbn [negb].
+    change (32 =? derivedKeyLen)%Z with true. cbn [negb].
+    assert (Cpos : (0 < cnt)%Z).
+    { unfold pbkdf2_pre in Pre. apply andb_prop in Pre as [A _]. apply Z.ltb_lt in A. exact A. }
+    replace (cnt <=? 0)%Z with false by (symmetry; apply Z.leb_gt; exact Cpos).
+    unfold call_pbkdf2. rewrite Pre. cbn [negb]. smp.
+    rewrite (decryptCommon_spec (cc_target cipher ct iv kdf mac) (pbkdf2 P pw salt cnt 32)).
+    + smp. eexists. split; [reflexivity|]. split; [reflexivity|]. split; [reflexivity|].
+      exists id. unfold v3_id, str_field. rewrite Fid. unfold GetID. cbn [w_core cf_id]. rewrite Pid.
+      repeat split; congruence.
+    + apply (cl_pbkdf2_len P L). exact Pre.
+    + exact Liv.
+    + exact M.
+Qed.
+
+Theorem read_is_standard (check_cipher : bool) doc pw key :
+  v3_decrypt_gen check_cipher P doc pw = Ok key ->
+  unambiguous doc = true -> nums_ok P doc = true ->
+  exists w, read_wallet_tree P doc pw = Ok w /\ PrivateKey w = key /\
+            exists id, v3_id doc = Some id /\ GetID w = uuid_parse P id /\ GetID w <> None.
+Proof.
+  intros D U N.
+  assert (O : exists top, doc = JObj top).
+  { unfold v3_decrypt_gen in D. destruct doc; try discriminate. eexists; reflexivity. }
+  destruct O as [top ->]. destruct (unmarshal_metadata_ok P top N) as [md Emd].
+  destruct (read_is_standard_core check_cipher _ pw key md D U) as [w [R [K [_ I]]]].
+  - intros id Vid. unfold v3_decrypt_gen in D.
+    destruct (field "version" top) as [[| | lv | | |]|]; try discriminate.
+    unfold v3_id in Vid.
+    destruct (str_field "id" top) as [id'|] eqn:Fid; try discriminate. injection Vid as <-.
+    destruct (obj_field "crypto" top); try discriminate.
+    destruct (negb (bytes_eqb lv (ascii_bytes "3"))); try discriminate.
+    destruct (uuid_text_ok id') eqn:T; cbn [negb] in D; try discriminate.
+    exact (LU id' T).
+  - exact Emd.
+  - exists w. auto.
+Qed.
+
+End ReadStandard.
